@@ -570,8 +570,58 @@ func checkC04(r *Run) {
 			}
 		})
 	}
+	c.ruleReaderDiscipline(rr[6])
 	// ---- R-C04-7
 	c.ruleHandlerPerMessage(rr[7])
 	// ---- R-C04-8
 	c.ruleGuardTightness(rr[8], []string{"pktPublish", "pktPubRel"})
+	c.ruleUnpackStringConsumes(rr[8])
+}
+
+// ruleReaderDiscipline: readPacket reads from the reader it is given only through io.ReadFull (no per-call buffering wrapper that
+// would swallow read-ahead bytes of the next packet), allocates a fresh body buffer per packet, and serve hands it the transport.
+func (c *Ctx) ruleReaderDiscipline(rr *RuleRep) {
+	rp := c.Func("readPacket")
+	if rp == nil || len(rp.Params) == 0 {
+		rr.Lost("readPacket", "not found")
+		return
+	}
+	r := rp.Params[0]
+	ok := true
+	for _, u := range *r.Referrers() {
+		switch x := u.(type) {
+		case *ssa.Call:
+			if !isStdCall(&x.Call, "io", "ReadFull") {
+				ok = false
+				rr.Bad("readPacket/reader", x.Pos(), "the transport reader is passed to %s: a wrapper created per packet (e.g. a buffered reader) reads ahead and the bytes of the following packet are thrown away with it", x.Call.String())
+			}
+		case *ssa.DebugRef:
+		default:
+			ok = false
+			rr.Bad("readPacket/reader", u.Pos(), "the transport reader is used other than as the source of io.ReadFull (%s)", u.String())
+		}
+	}
+	if ok {
+		rr.OK("readPacket/reader", rp.Pos(), "the reader is used only as the source of io.ReadFull")
+	}
+	// fresh body per packet
+	fresh := true
+	n := 0
+	for _, ret := range returnsOf(rp) {
+		if len(ret.Results) < 3 {
+			continue
+		}
+		v := c.Resolve(ret.Results[2])
+		if isNilConst(v) {
+			continue
+		}
+		n++
+		if mk, isMk := v.(*ssa.MakeSlice); !isMk || mk.Parent() != rp {
+			fresh = false
+			rr.Bad("readPacket/body", ret.Pos(), "the packet body handed to the parsers is not a buffer freshly allocated for this packet (%s): parsed messages alias it (Payload is a sub-slice), so a message held for later — a QoS 2 message waiting for PUBREL, or one a handler keeps — is overwritten by the next packet", describeVal(v))
+		}
+	}
+	if fresh && n > 0 {
+		rr.OK("readPacket/body", rp.Pos(), "each packet body is a fresh make([]byte, n)")
+	}
 }
